@@ -319,7 +319,8 @@ class Offset:
 
 def _offset_eval(e: ast.expr, env: dict) -> Optional[Offset]:
     if isinstance(e, ast.Name):
-        return env.get(e.id)
+        v = env.get(e.id)
+        return v if isinstance(v, Offset) else None
     if isinstance(e, ast.BinOp) and isinstance(e.op, (ast.Add, ast.Sub)):
         l = _offset_eval(e.left, env)
         r = _offset_eval(e.right, env)
@@ -331,7 +332,12 @@ def _offset_eval(e: ast.expr, env: dict) -> Optional[Offset]:
         inner = e.args[0]
         if "node_index" in norm(inner) and "getText" in norm(inner):
             return Offset(0, e)
+        if isinstance(inner, ast.Call) and isinstance(inner.func, ast.Attribute) and inner.func.attr == "getText" and isinstance(inner.func.value, ast.Name) \
+                and env.get(inner.func.value.id) == "NODE_INDEX_CTX":
+            return Offset(0, e)
         return _offset_eval(inner, env)
+    if isinstance(e, ast.Name) and env.get(e.id) == "NODE_INDEX_CTX":
+        return None
     return None
 
 
@@ -354,11 +360,35 @@ def r_codec(ctx) -> RuleResult:
         nonlocal n_par
         if depth > 4:
             return
+        # names that stand for one node_index context:  c = ctx.node_index(0)  /  for c in ctx.node_index()
+        for n in ast.walk(mfi.node):
+            tg = it = None
+            if isinstance(n, ast.Assign) and len(n.targets) == 1 and isinstance(n.targets[0], ast.Name):
+                tg, it = n.targets[0].id, n.value
+            elif isinstance(n, ast.For) and isinstance(n.target, ast.Name):
+                tg, it = n.target.id, n.iter
+            elif isinstance(n, ast.comprehension) and isinstance(n.target, ast.Name):
+                tg, it = n.target.id, n.iter
+            if tg and isinstance(it, ast.Call) and isinstance(it.func, ast.Attribute) and it.func.attr == "node_index":
+                env[tg] = "NODE_INDEX_CTX"
         for n in own_walk(mfi.node):
             if isinstance(n, ast.Assign) and len(n.targets) == 1 and isinstance(n.targets[0], ast.Name):
                 v = _offset_eval(n.value, env)
                 if v is not None:
                     env[n.targets[0].id] = v
+            elif isinstance(n, ast.Assign) and len(n.targets) == 1 and isinstance(n.targets[0], (ast.Tuple, ast.List)):
+                tgs = n.targets[0].elts
+                if isinstance(n.value, (ast.GeneratorExp, ast.ListComp)):
+                    v = _offset_eval(n.value.elt, env)
+                    if v is not None:
+                        for t in tgs:
+                            if isinstance(t, ast.Name):
+                                env[t.id] = v
+                elif isinstance(n.value, (ast.Tuple, ast.List)) and len(n.value.elts) == len(tgs):
+                    for t, x in zip(tgs, n.value.elts):
+                        v = _offset_eval(x, env)
+                        if v is not None and isinstance(t, ast.Name):
+                            env[t.id] = v
         for n in own_walk(mfi.node):
             if not isinstance(n, ast.Call):
                 continue
@@ -404,23 +434,61 @@ def r_codec(ctx) -> RuleResult:
     tg = repo.mro_method(lis, "to_graph")
     if tg is None:
         raise AnalysisError("listener.to_graph vanished")
-    sorts = [n for n in own_walk(tg.node) if isinstance(n, ast.Call) and isinstance(n.func, ast.Name) and n.func.id == "sorted"]
-    sort_methods = [n for n in own_walk(tg.node) if isinstance(n, ast.Call) and isinstance(n.func, ast.Attribute) and n.func.attr == "sort"]
+    # the sort may sit in to_graph or in a helper it calls
+    tg_clo = [tg] + [ctx.cg.funcs[q] for q in ctx.cg.closure([tg.fq]) if ctx.cg.funcs[q].cls is tg.cls and q != tg.fq]
+    sorts = [(f, n) for f in tg_clo for n in own_walk(f.node) if isinstance(n, ast.Call) and
+             ((isinstance(n.func, ast.Name) and n.func.id == "sorted") or (isinstance(n.func, ast.Attribute) and n.func.attr == "sort"))]
+
+    def key_is_atomic_number(f, key):
+        """True / False / None (cannot tell)"""
+        if key is None:
+            return False
+        if isinstance(key, ast.Lambda):
+            return isinstance(key.body, ast.Subscript) and isinstance(key.body.value, ast.Name) and key.args.args and \
+                key.body.value.id == key.args.args[0].arg and try_const(ctx, f, key.body.slice) == an
+        if isinstance(key, ast.Call) and norm(key.func).split(".")[-1] == "itemgetter":
+            return len(key.args) == 1 and try_const(ctx, f, key.args[0]) == an
+        if isinstance(key, (ast.Name, ast.Attribute)):
+            r = ctx.repo.resolve_dotted(f.module, key) if not (isinstance(key, ast.Attribute) and isinstance(key.value, ast.Name) and key.value.id == "self") else \
+                (("func", repo.mro_method(f.cls, key.attr)) if f.cls is not None and repo.mro_method(f.cls, key.attr) is not None else None)
+            if r and r[0] == "func":
+                kf = r[1]
+                ps = [p for p in params_of(kf.node) if p not in ("self", "cls")]
+                rets = [x for x in own_walk(kf.node) if isinstance(x, ast.Return)]
+                if len(ps) == 1 and len(rets) == 1 and isinstance(rets[0].value, ast.Subscript) and isinstance(rets[0].value.value, ast.Name) \
+                        and rets[0].value.value.id == ps[0]:
+                    return try_const(ctx, kf, rets[0].value.slice) == an
+                return None
+            if isinstance(key, ast.Name):
+                d = single_def(f.node, key.id)
+                if d is not None:
+                    return key_is_atomic_number(f, d)
+        return None
     ok = False
     why = "no sort of the atoms by atomic number"
     node = tg.node
-    for s in sorts + sort_methods:
-        key = kwarg(s, "key")
-        rev = kwarg(s, "reverse")
-        node = s
+    unknown = None
+    for f, s_ in sorts:
+        key = kwarg(s_, "key")
+        rev = kwarg(s_, "reverse")
+        node = s_
         if rev is not None and not (isinstance(rev, ast.Constant) and rev.value in (False, None)):
             why = "atoms sorted in reverse"
             continue
-        if isinstance(key, ast.Lambda) and isinstance(key.body, ast.Subscript) and isinstance(key.body.value, ast.Name) \
-                and key.body.value.id == key.args.args[0].arg and try_const(ctx, tg, key.body.slice) == an:
+        verdict = key_is_atomic_number(f, key)
+        if verdict is True:
             ok, why = True, "stable sort on atomic number only"
             break
+        if verdict is None:
+            unknown = key
         why = f"sort key `{short(key) if key is not None else None}` is not the atomic number alone (ties must keep formula order)"
+    if not ok and unknown is not None:
+        raise AnalysisError(f"R-CODEC: cannot tell what the sort key `{short(unknown)}` of the parser's atom numbering reads")
+    if not ok and not sorts:
+        elsewhere = [n for m_ in lis.methods.values() for n in own_walk(m_.node) if isinstance(n, ast.Call) and
+                     ((isinstance(n.func, ast.Name) and n.func.id in ("sorted", "insort")) or (isinstance(n.func, ast.Attribute) and n.func.attr in ("sort", "insort")))]
+        if elsewhere:
+            raise AnalysisError("R-CODEC: the parser sorts atoms outside to_graph; this rule reads the numbering only there")
     res.inst(tg.fq, short(node), "ok" if ok else "fail", detail=why)
     if not ok:
         res.fail(Finding("R-CODEC", tg.module.rel, tg.qualname, norm(node), f"parser numbers atoms differently from the serializer: {why}", line=getattr(node, "lineno", None)))
